@@ -313,8 +313,90 @@ def r17_3(prog, rep):
                 rep.fail(rid, key, f.loc(line),
                          "%s() is asked about month %s of year `%s`, but %s carries into %s: once the walk has crossed a year boundary the month "
                          "length/weekday of the wrong year is used (February of a leap vs. common year)" % (callee, ma, ya, ma, "/".join(sorted(pairs[ma]))))
+        # ... and a month length must not be looked up by the carried month alone: a table indexed with M knows nothing of the year
+        # the walk has carried into (a copy of the month lengths prepared for the start year is stale after the first carry)
+        for b, i, x, line in cfg.all_elems():
+            if not isinstance(x, dict):
+                continue
+            for nn in walk(cfg.resolve(x)):
+                if nn.get("k") == "idx" and lv(strip_casts(nn["i"])) in pairs:
+                    arr = strip_casts(nn["b"])
+                    n += 1
+                    rep.fail(rid, "%s/%s[%s]" % (f.name, lv(arr), lv(strip_casts(nn["i"]))), f.loc(nn.get("line", line)),
+                             "`%s` is subscripted with the carried month %s alone: whatever year the table was prepared for, once the walk has carried "
+                             "into %s its February is the wrong one" % (lv(arr), lv(strip_casts(nn["i"])), "/".join(sorted(pairs[lv(strip_casts(nn["i"]))]))))
     if n < 4:
         rep.broken_("rule=R17.3 expected >=4 (year, month) helper calls on carry pairs, found %d" % n)
+
+
+def r17_4(prog, rep):
+    """Every BYEASTER offset is counted from Easter Sunday.  In the loop that iterates the offsets, a variable that receives `+= offset`
+    must have been given its base value *inside* the loop on every path to that update; a base computed once before the loop
+    accumulates the offsets (Easter - 2, then Easter - 2 + 1 instead of Easter + 1)."""
+    rid = "R17.4"
+    f = prog.fn("fill_yly_eastr", "evrrul.c")
+    cfg = f.cfg
+    loops = cfg.natural_loops()
+    n = 0
+    for h, blks in loops.items():
+        itv = None
+        for b in blks:
+            for e in cfg.blocks[b].elems:
+                if not isinstance(e["x"], dict):
+                    continue
+                for l, kind, nn in writes(e["x"]):
+                    if nn.get("k") == "bin" and nn["op"] == "=":
+                        r = strip_casts(cfg.resolve(nn["r"]))
+                        if r.get("k") == "call" and (r.get("fn") or "").endswith("_next"):
+                            itv = lv(l)
+        if itv is None:
+            continue
+        for b in sorted(blks):
+            for i, e in enumerate(cfg.blocks[b].elems):
+                if not isinstance(e["x"], dict):
+                    continue
+                for l, kind, nn in writes(e["x"]):
+                    if kind == "compound" and nn.get("op") in ("+=", "-=") and lv(strip_casts(cfg.resolve(nn["r"]))) == itv:
+                        v = lv(l)
+                        n += 1
+                        reach_hdr = _reaches_header_without_def(cfg, blks, h, b, i, v)
+                        key = "fill_yly_eastr/offset-from-fresh-base(%s)" % v
+                        if reach_hdr:
+                            rep.fail(rid, key, f.loc(nn.get("line", e.get("line"))), "`%s %s %s` is applied to a base that is not re-established inside the offset loop: "
+                                     "the second BYEASTER offset is counted from the result of the first, not from Easter Sunday" % (v, nn["op"], itv))
+                        else:
+                            rep.ok(rid, key, f.loc(nn.get("line", e.get("line"))), "%s is set afresh in every iteration before `%s %s`" % (v, nn["op"], itv))
+    if n < 1:
+        rep.broken_("rule=R17.4 expected the offset update in fill_yly_eastr, found %d" % n)
+
+
+def _reaches_header_without_def(cfg, blks, h, b, i, v):
+    """Walking backwards from (b, i) inside the loop: is the loop header reached without meeting a plain definition of v?"""
+    seen = set()
+    work = [(b, i - 1)]
+    while work:
+        bb, ii = work.pop()
+        blk = cfg.blocks[bb]
+        cut = False
+        j = ii
+        while j >= 0:
+            xx = blk.elems[j]["x"]
+            if isinstance(xx, dict):
+                for l2, k2, n2 in writes(xx):
+                    if lv(l2) == v and ((k2 == "assign" and n2.get("k") == "bin" and n2["op"] == "=") or (k2 == "decl" and n2.get("init") is not None)):
+                        cut = True
+            if cut:
+                break
+            j -= 1
+        if cut:
+            continue
+        if bb == h:
+            return True
+        for p_ in cfg.lpreds.get(bb, []):
+            if p_ in blks and p_ not in seen:
+                seen.add(p_)
+                work.append((p_, len(cfg.blocks[p_].elems) - 1))
+    return False
 
 
 def run(prog, rep, tier, snap):
@@ -324,4 +406,6 @@ def run(prog, rep, tier, snap):
     rep.call(r17_2, prog, rep)
     rep.rule("R17.3", "calendar helpers are asked about the carried (year, month) pair", 4)
     rep.call(r17_3, prog, rep)
+    rep.rule("R17.4", "every BYEASTER offset is applied to a base set afresh in the loop", 1)
+    rep.call(r17_4, prog, rep)
 READY = True
